@@ -92,6 +92,10 @@ def tucker_als(  # noqa: PLR0912, PLR0913, PLR0915
     rank = parse_one_d(rank)
     if len(rank) == 1:
         rank = rank.repeat(N)
+    if len(rank) != N:
+        raise ValueError(
+            f"Rank must be a scalar or have one entry per mode ({N}) but got {rank}"
+        )
 
     # Set up dimorder if not specified
     if dimorder is None:
